@@ -429,7 +429,13 @@ func decodeKey(seq ansi.Sequence) Key {
 	// patches to both terminals)
 	nmods := key.Modifiers &^ (ModCapsLock | ModNumLock)
 	if key.Text == "" && nmods == ModShift && unicode.IsPrint(key.Keycode) {
-		key.Text = string(unicode.ToUpper(key.Keycode))
+		if unicode.IsPrint(key.ShiftedCode) {
+			// the report carries the character Shift produces on
+			// this layout
+			key.Text = string(key.ShiftedCode)
+		} else {
+			key.Text = string(unicode.ToUpper(key.Keycode))
+		}
 	}
 	return key
 }
